@@ -247,6 +247,14 @@ Print Assumptions C08_real_decoder_key_on_valid.
 Example C08_decoder_hypotheses_nonvacuous : fk_lossless toy_fk /\ fk_progress toy_fk.
 Proof. exact decoder_hypotheses_nonvacuous. Qed.
 
+(* a late select wake-up (environment step Late d) delivers a scheduled event through
+   the SECOND pop site of _send (behind the wait), the others stay sorted behind it *)
+Example C08_late_wakeup_second_pop_site :
+  let s := apply_envs [Sched 6 1; Sched 2 2; Sched 4 3] (init 0) in
+  let '(s', sc', o) := send toy_fk None None s [Late 1; Tick 9] in
+  o = OSched 2 2 /\ now s' = 3 /\ qsched s' = [(4, 3%N); (6, 1%N)] /\ sc' = [Tick 9].
+Proof. exact late_wakeup_second_pop_site. Qed.
+
 (* the formula before commit 4c90127 returned None at clock 6 for a request made
    at clock 0 with timeout 10 and nothing scheduled (regression witness, corpus/C08) *)
 Example C08_old_recompute_refuted :
